@@ -17,6 +17,7 @@ import (
 	"strings"
 	"sync"
 	"sync/atomic"
+	"syscall"
 	"testing/synctest"
 	"time"
 
@@ -97,6 +98,9 @@ type Env struct {
 	mainGID   uint64
 	inHook    bool
 	opCancel  context.CancelFunc
+	// local staging fault armed by the harness step stage_fail ("open", "write", "sync")
+	stageFault    string
+	stageFaultsOn bool
 	lastMtime time.Time
 	restoreN  int
 	start     time.Time
@@ -185,7 +189,7 @@ func RunHIST(t testingT, p *Program, hooks func(e *Env)) (res *Result) {
 	}
 	defer os.RemoveAll(dir)
 
-	e := &Env{Prog: p, Dir: dir, DBPath: filepath.Join(dir, "db"), RepDir: filepath.Join(dir, "replica"),
+	e := &Env{stageFaultsOn: true, Prog: p, Dir: dir, DBPath: filepath.Join(dir, "db"), RepDir: filepath.Join(dir, "replica"),
 		Scratch: filepath.Join(dir, "scratch"), Res: res, siteCount: map[string]int{}, SitesSeen: map[string]int{}}
 	_ = os.MkdirAll(e.Scratch, 0o755)
 	e.Probe = newProbeHandler()
@@ -482,7 +486,51 @@ func (e *Env) newDB() (*litestream.DB, *file.ReplicaClient) {
 	r.MonitorEnabled = false
 	r.MaxSyncLTXFiles = cfg.MaxSyncLTXFiles
 	db.Replica = r
+	if e.stageFaultsOn {
+		// local staging faults (harness step stage_fail): the next staged level-0
+		// file meets a full disk at open, while being written, or at fsync
+		db.VerifSetOpenLTXFile(func(name string, flag int, perm os.FileMode) (litestream.VerifStagingFile, error) {
+			mode := e.stageFault
+			e.stageFault = ""
+			if mode == "open" {
+				e.Res.FaultsHit["stage_open_enospc"]++
+				return nil, &os.PathError{Op: "open", Path: name, Err: syscall.ENOSPC}
+			}
+			verifhook.FS("create", name, "")
+			f, err := os.OpenFile(name, flag, perm)
+			if err != nil || mode == "" {
+				return f, err
+			}
+			return &faultyStagingFile{File: f, mode: mode, e: e}, nil
+		})
+	}
 	return db, client
+}
+
+type faultyStagingFile struct {
+	*os.File
+	mode string // write | sync
+	n    int
+	e    *Env
+}
+
+func (f *faultyStagingFile) Write(p []byte) (int, error) {
+	if f.mode == "write" {
+		f.n += len(p)
+		if f.n > 200 {
+			f.e.Res.FaultsHit["stage_write_enospc"]++
+			return 0, &os.PathError{Op: "write", Path: f.Name(), Err: syscall.ENOSPC}
+		}
+	}
+	return f.File.Write(p)
+}
+
+func (f *faultyStagingFile) Sync() error {
+	if f.mode == "sync" {
+		f.e.Res.FaultsHit["stage_sync_error"]++
+		return &os.PathError{Op: "sync", Path: f.Name(), Err: syscall.EIO}
+	}
+	return f.File.Sync()
 }
 
 func (e *Env) startLS() error {
@@ -538,9 +586,13 @@ func (e *Env) execOp(op *Op) (string, bool) {
 	// every op runs under its own cancellable context: the interposable harness
 	// step "cancel_ctx" cancels it at a yield site (a request that times out or
 	// a caller that gives up at an arbitrary instant)
+	// The context is NOT cancelled when the op returns: litestream's monitors
+	// call these operations with a context that lives as long as the process,
+	// and database/sql rolls back transactions of a cancelled context, which
+	// would hide a transaction that an operation forgot to end.
 	ctx, cancel := context.WithCancel(context.Background())
 	e.opCancel = cancel
-	defer func() { cancel(); e.opCancel = nil }()
+	defer func() { e.opCancel = nil }()
 	switch {
 	case op.Kind == "app":
 		if op.Step != nil && op.Step.K == "save_copy" {
@@ -660,6 +712,17 @@ func init() {
 		if st.N > 0 {
 			return errStr(e.LS.DB.Replica.Sync(ctx))
 		}
+		return "ok"
+	}
+	harnessSteps["stage_fail"] = func(e *Env, st *Step) string {
+		if !e.stageFaultsOn {
+			return "noop"
+		}
+		e.stageFault = st.Mode
+		if e.stageFault == "" {
+			e.stageFault = "open"
+		}
+		e.Res.Probes["stage_faults_armed"]++
 		return "ok"
 	}
 	harnessSteps["cancel_ctx"] = func(e *Env, st *Step) string {
